@@ -751,17 +751,30 @@ def check_case(ctx, drv_reply, case, stream):
   # the offset is the one that reproduces the implementation's key outputs (if any does)
   ls = lifted_streams(case)
   kpos = [k for k, st in enumerate(key_streams(case['prog'], lambda s_: s_ in ls)) if st is not None] if kind != 'remat' else []
+  out_axes_k = axes_expand(case['cfg']['out_axes'], len(got['ys'])) if kind != 'remat' else []
+  kstack = [k for k in kpos if k < len(out_axes_k) and out_axes_k[k] is not None]
+  kconst = [k for k in kpos if k < len(out_axes_k) and out_axes_k[k] is None]
   orc = None
+  first = None
   for offs in offset_candidates(case):
     o = run_oracle(case, offs)
+    if first is None:
+      first = o
     if orc is None or o[0] == 'err':
       orc = o
     if o[0] == 'err':
       break
     oc = int_canon(o[1])
-    if oc == got or (kpos and all(k < len(oc['ys']) and k < len(got['ys']) and oc['ys'][k] == got['ys'][k] for k in kpos)):
+    if oc == got or (kstack and all(k < len(oc['ys']) and k < len(got['ys']) and oc['ys'][k] == got['ys'][k] for k in kstack)):
       orc = o
       break
+  if orc[0] == 'ok' and first[0] == 'ok' and kconst and kind == 'scan':
+    # a key output declared broadcast is drawn during the broadcast pass (an earlier trace: draw counter of t=0)
+    ys = list(orc[1]['ys'])
+    for k in kconst:
+      if k < len(ys) and k < len(first[1]['ys']):
+        ys[k] = first[1]['ys'][k]
+    orc = ('ok', dict(orc[1], ys=ys))
   if orc[0] == 'err':
     if stream == 'valid':
       ctx.violation(f'{kind}-works-where-loop-raises', f'the explicit loop raised {orc[1]} but {kind} returned a value', case)
@@ -1456,6 +1469,8 @@ def check_length_inference(ctx, drv, rng, thorough):
 
 
 def run_cases(ctx, drv, cases):
+  for c, st in cases:
+    c['stream'] = st  # kept inside the case so that a replay judges it by the same rules
   outs = drv.run([model_request(c) for c, _ in cases])
   for (case, stream), o in zip(cases, outs):
     nontrivial = case.get('n', 2) >= 2 or len(case['outer']) >= 1
@@ -1519,7 +1534,7 @@ def run(ctx):
   check_arr_prims(ctx, drv, rng)
   check_move_axis(ctx, drv, thorough)
   check_length_inference(ctx, drv, rng, thorough)
-  n_scan, n_vmap, n_remat, n_wild = (70, 35, 12, 35) if not thorough else (900, 450, 150, 450)
+  n_scan, n_vmap, n_remat, n_wild = (70, 35, 12, 35) if not thorough else (2400, 1200, 400, 1200)
   cases = []
   for _ in range(n_scan):
     cases.append((gen_scan_case(rng, 'valid', kind='scan'), 'valid'))
@@ -1547,7 +1562,7 @@ def _run_case(ctx, drv, obj):
   kind = case.get('kind')
   if kind in ('scan', 'vmap', 'remat'):
     case = {k: v for k, v in case.items() if k not in ('want', 'got', 'origin')}
-    run_cases(ctx, drv, [(case, obj.get('stream', case.get('stream', 'valid')))])
+    run_cases(ctx, drv, [(case, case.get('stream', 'valid'))])
   elif kind == 'move_axis':
     check_move_axis(ctx, drv, False)
   elif kind == 'arr-prim':
